@@ -18,6 +18,73 @@ class Unknown(ast.expr):
     _fields = ()
 
 
+class _Lit(ast.expr):
+    """an already substituted value (kept as is by subst)"""
+    _fields = ()
+
+    def __init__(self, node=None):
+        super().__init__()
+        self.node = node
+
+
+def _depth_ifexp(e) -> int:
+    return 1 + max(_depth_ifexp(e.body), _depth_ifexp(e.orelse)) if isinstance(e, ast.IfExp) else 0
+
+
+def _split_ifexp(e: ast.AST):
+    """(condition, e with the first embedded conditional expression replaced by its true arm, ... by its false arm), or None"""
+    target = None
+    for n in ast.walk(e):
+        if isinstance(n, ast.IfExp):
+            target = n
+            break
+    if target is None:
+        return None
+
+    def repl(node, new):
+        if node is target:
+            return _clone(new)
+        if isinstance(node, ast.AST) and not isinstance(node, (_Lit, Unknown)):
+            c = node.__class__()
+            for f, v in ast.iter_fields(node):
+                if isinstance(v, list):
+                    setattr(c, f, [repl(x, new) for x in v])
+                else:
+                    setattr(c, f, repl(v, new) if isinstance(v, ast.AST) else v)
+            return c
+        return node
+    return target.test, simplify(repl(e, target.body)), simplify(repl(e, target.orelse))
+
+
+def _static_truth(t: ast.AST) -> Optional[bool]:
+    """truth of a test that only compares constants (after substitution): X is None, X is not None, ==, != on literals; not/and/or thereof"""
+    if isinstance(t, ast.Constant):
+        return bool(t.value)
+    if isinstance(t, ast.UnaryOp) and isinstance(t.op, ast.Not):
+        v = _static_truth(t.operand)
+        return None if v is None else (not v)
+    if isinstance(t, ast.BoolOp):
+        vs = [_static_truth(v) for v in t.values]
+        if isinstance(t.op, ast.And):
+            if any(v is False for v in vs):
+                return False
+            return True if all(v is True for v in vs) else None
+        if any(v is True for v in vs):
+            return True
+        return False if all(v is False for v in vs) else None
+    if isinstance(t, ast.Compare) and len(t.ops) == 1 and isinstance(t.left, ast.Constant) and isinstance(t.comparators[0], ast.Constant):
+        a, b, op = t.left.value, t.comparators[0].value, t.ops[0]
+        if isinstance(op, ast.Is):
+            return a is b if (a is None or b is None or isinstance(a, bool) or isinstance(b, bool)) else (a == b)
+        if isinstance(op, ast.IsNot):
+            return a is not b if (a is None or b is None or isinstance(a, bool) or isinstance(b, bool)) else (a != b)
+        if isinstance(op, ast.Eq):
+            return a == b
+        if isinstance(op, ast.NotEq):
+            return a != b
+    return None
+
+
 class Path:
     def __init__(self):
         self.conds: List[Tuple[ast.AST, bool]] = []
@@ -85,6 +152,8 @@ class _Sub(ast.NodeTransformer):
 
 
 def subst(e: ast.AST, env: Dict[str, ast.AST]) -> ast.AST:
+    if isinstance(e, _Lit):
+        return e
     return _Sub(env).visit(_clone(e))
 
 
@@ -134,7 +203,8 @@ def _assigned(st: ast.AST) -> List[str]:
     return out
 
 
-def paths(stmts: Sequence[ast.stmt], env0: Optional[Dict[str, ast.AST]] = None, max_paths: int = 256) -> List[Path]:
+def paths(stmts: Sequence[ast.stmt], env0: Optional[Dict[str, ast.AST]] = None, max_paths: int = 256, keep: Sequence[str] = ()) -> List[Path]:
+    """`keep`: names that stay symbolic (never replaced by what was assigned to them)"""
     start = Path()
     start.env = dict(env0 or {})
     done: List[Path] = []
@@ -146,20 +216,41 @@ def paths(stmts: Sequence[ast.stmt], env0: Optional[Dict[str, ast.AST]] = None, 
             if p.ended:
                 break
             if isinstance(st, ast.If):
-                t = subst(st.test, p.env)
+                t = st.test.node if isinstance(st.test, _Lit) else simplify(subst(st.test, p.env))
+                sp = _split_ifexp(t) if len(p.conds) < 24 else None
+                if sp is not None:
+                    # the test embeds a conditional value: decide the embedded condition first
+                    cnd, t_true, t_false = sp
+                    for pol, tt in ((True, t_true), (False, t_false)):
+                        q = p.fork()
+                        q.conds.append((cnd, pol))
+                        run([ast.If(test=_Lit(tt), body=st.body, orelse=st.orelse)] + list(stmts[i + 1:]), q)
+                    return
+                known = _static_truth(t)
                 for pol, arm in ((True, st.body), (False, st.orelse)):
+                    if known is not None and known != pol:
+                        continue
                     q = p.fork()
                     q.conds.append((t, pol))
                     run(list(arm) + list(stmts[i + 1:]), q)
                 return
             if isinstance(st, ast.Assign) and len(st.targets) == 1:
                 t = st.targets[0]
-                v = simplify(subst(st.value, p.env))
-                for x in ast.walk(st.value):
+                v = st.value if isinstance(st.value, _Lit) else simplify(subst(st.value, p.env))
+                for x in ([] if isinstance(st.value, _Lit) else ast.walk(st.value)):
                     if isinstance(x, ast.Call):
                         p.events.append(("call", x, simplify(subst(x, p.env))))
-                if isinstance(t, ast.Name):
-                    p.env[t.id] = v
+                if isinstance(t, ast.Name) and isinstance(v, ast.IfExp) and _depth_ifexp(v) <= 6:
+                    # a conditional value: one path per arm, so that later tests of the local can be decided
+                    for pol, arm in ((True, v.body), (False, v.orelse)):
+                        q = p.fork()
+                        q.conds.append((v.test, pol))
+                        run([ast.Assign(targets=[ast.Name(id=t.id, ctx=ast.Store())], value=_Lit(arm), lineno=getattr(st, "lineno", 0))] + list(stmts[i + 1:]), q)
+                    return
+                if isinstance(t, ast.Name) and t.id in keep:
+                    pass
+                elif isinstance(t, ast.Name):
+                    p.env[t.id] = v.node if isinstance(v, _Lit) else v
                 elif isinstance(t, (ast.Tuple, ast.List)) and isinstance(v, (ast.Tuple, ast.List)) and len(t.elts) == len(v.elts) and all(isinstance(e, ast.Name) for e in t.elts):
                     for e, vv in zip(t.elts, v.elts):
                         p.env[e.id] = vv
@@ -185,6 +276,9 @@ def paths(stmts: Sequence[ast.stmt], env0: Optional[Dict[str, ast.AST]] = None, 
                     p.events.append(("yield", st.value, simplify(subst(st.value, p.env))))
                 continue
             if isinstance(st, ast.Return):
+                for x in (ast.walk(st.value) if st.value is not None else []):
+                    if isinstance(x, ast.Call):
+                        p.events.append(("call", x, simplify(subst(x, p.env))))
                 p.returned = simplify(subst(st.value, p.env)) if st.value is not None else ast.Constant(value=None)
                 p.ended = True
                 break
@@ -197,7 +291,15 @@ def paths(stmts: Sequence[ast.stmt], env0: Optional[Dict[str, ast.AST]] = None, 
             if isinstance(st, (ast.With, ast.AsyncWith)):
                 run(list(st.body) + list(stmts[i + 1:]), p)
                 return
-            # opaque: loops, try, defs
+            if isinstance(st, ast.Try):
+                # the normal path runs the body; each handler is a path of its own (the body's effects up to the failure are over-approximated by all of them)
+                for h in st.handlers:
+                    q = p.fork()
+                    q.events.append(("except", h, h))
+                    run(list(st.body) + list(h.body) + list(st.finalbody) + list(stmts[i + 1:]), q)
+                run(list(st.body) + list(st.orelse) + list(st.finalbody) + list(stmts[i + 1:]), p)
+                return
+            # opaque: loops, defs
             for nm in _assigned(st):
                 p.env[nm] = Unknown()
             p.events.append(("opaque", st, st))
